@@ -29,6 +29,7 @@ import (
 	"context"
 
 	"github.com/gorilla/websocket"
+	"github.com/google/inverting-proxy/verifhook"
 )
 
 var websocketShimInjectedHeadersPath = []string{"resource", "headers"}
@@ -148,6 +149,7 @@ func NewConnection(ctx context.Context, targetURL string, header http.Header, er
 				if clientMsg == nil {
 					continue
 				}
+				verifhook.At("conn.writer.recv")
 				if err := serverConn.WriteMessage(clientMsg.Type, clientMsg.Data); err != nil {
 					errCallback(fmt.Errorf("failed to forward websocket data to the server: %v", err))
 					// Errors writing to the server connection are terminal; once an error is returned
@@ -177,6 +179,7 @@ func NewConnection(ctx context.Context, targetURL string, header http.Header, er
 //
 // It is safe to call Close multiple times, and concurrently with SendClientMessage.
 func (conn *Connection) Close() {
+	verifhook.At("conn.close.enter")
 	conn.mu.Lock()
 	defer conn.mu.Unlock()
 	if conn.closed {
@@ -236,6 +239,7 @@ func (conn *Connection) SendClientMessage(msg interface{}, injectionEnabled bool
 			clientMessage = injectedMsg
 		}
 	}
+	verifhook.At("conn.send.enter")
 	conn.mu.Lock()
 	defer conn.mu.Unlock()
 	if conn.closed {
